@@ -46,6 +46,7 @@ AllSparse == << {<<>>}, {<<"d">>}, {<<"f">>}, {<<"d", "x">>, <<"f">>}, {<<"gi">>
 AllEditPaths == Paths
 SparseEditPaths == {<<"f">>, <<"d">>, <<"d", "x">>}
 IgnoreEditPaths == {<<"gi">>, <<"d">>}
+DirPaths == {<<"d">>, <<"d", "x">>}
 InsideIgnoredPaths == {<<"d", "x">>, <<"d", "x", "z">>, <<"d", "y">>}
 IgnoreIdsOf(p) == IF Len(p) = 1 THEN RootIgnore ELSE DirIgnore
 
@@ -59,6 +60,7 @@ Edits ==
   \cup {[a |-> "Symlink", p |-> p, c |-> 0, t |-> t] : p \in EditPaths, t \in SymTargets}
   \cup {[a |-> "Delete", p |-> p, c |-> 0, t |-> ""] : p \in EditPaths}
   \cup {[a |-> "Mkfifo", p |-> p, c |-> 0, t |-> ""] : p \in {q \in EditPaths : ~IsIgnorePath(q)}}
+  \cup {[a |-> "DirToSymlink", p |-> p, c |-> 0, t |-> t] : p \in {q \in EditPaths : CanBeDir(q)}, t \in SymTargets}
   \cup {[a |-> "FileToDir", p |-> p, c |-> 0, t |-> ""] : p \in {q \in EditPaths : CanBeDir(q)}}
   \cup {[a |-> "RmTree", p |-> p, c |-> 0, t |-> ""] : p \in {q \in EditPaths : CanBeDir(q)}}
   \cup {[a |-> "DirToFile", p |-> p, c |-> c, t |-> ""] : p \in {q \in EditPaths : CanBeDir(q)}, c \in Contents}
@@ -72,6 +74,7 @@ EditEnabled(s, e) ==
        [] e.a = "Delete" -> CanDelete(s, e.p)
        [] e.a = "Mkfifo" -> CanMkfifo(s, e.p)
        [] e.a = "FileToDir" -> CanFileToDir(s, e.p)
+       [] e.a = "DirToSymlink" -> CanDirToSymlink(s, e.p, e.t)
        [] e.a = "RmTree" -> CanRmTree(s, e.p)
        [] e.a = "DirToFile" -> CanDirToFile(s, e.p, e.c)
 EditDo(s, e) ==
@@ -81,6 +84,7 @@ EditDo(s, e) ==
     [] e.a = "Delete" -> DoDelete(s, e.p)
     [] e.a = "Mkfifo" -> DoMkfifo(s, e.p)
     [] e.a = "FileToDir" -> DoFileToDir(s, e.p)
+    [] e.a = "DirToSymlink" -> DoDirToSymlink(s, e.p, e.t)
     [] e.a = "RmTree" -> DoRmTree(s, e.p)
     [] e.a = "DirToFile" -> DoDirToFile(s, e.p, e.c)
 
@@ -94,7 +98,7 @@ SnapshotVerdict(s, s2) ==
   LET v == SnapshotContract(s, s2) IN
   IF v = "ok" \/ (v = "Panic:Snapshot" /\ ~Strict
                     /\ (StaleStateShape(s) \/ DirConflictShape(s) \/ TrackedDirShape(s)))
-              \/ (v = "SnapshotOK" /\ ~Strict /\ StaleIgnoredShape(s))
+              \/ (v = "SnapshotOK" /\ ~Strict /\ (StaleIgnoredShape(s) \/ ThroughSymlinkShape(s)))
               \/ (v = "Error:Snapshot" /\ ~Strict /\ NotDirShape(s)) THEN "" ELSE v
 CheckOutVerdict(s, new, s2) ==
   LET v == CheckOutContract(s, new, s2) IN
